@@ -13,7 +13,12 @@ Inductive case :=
 (* json.Marshal of a Go value built directly, read back as [enc], decoded: [o] *)
 | CEnc (v : wval) (enc : option jv) (o : res wval)
 (* a text that is not (shallow) valid JSON: only accepted? / panicked? *)
-| CRaw (accepted panicked : bool).
+| CRaw (accepted panicked : bool)
+(* a history: the steps were run one after the other in one process.  The codec
+   is a function of its input alone (the model has no state), so every step is
+   judged by itself, by the model and by the oracle; an observation that
+   depends on an earlier step is a failing step. *)
+| CSeq (steps : list case).
 
 Definition wty_eqb (a b : wty) : bool :=
   match a, b with
@@ -65,7 +70,7 @@ Definition reenc_model (dec : jv -> res wval) (o1 : res wval) (enc : option jv) 
   | _ => match enc, o2 with None, None => true | _, _ => false end
   end.
 
-Definition run_case (c : case) : bool * bool :=
+Fixpoint run_case (c : case) : bool * bool :=
   match c with
   | CDec ty j o1 enc o2 =>
       (obs_eqb (dec_as ty j) o1 && reenc_model (dec_as ty) o1 enc o2,
@@ -83,4 +88,13 @@ Definition run_case (c : case) : bool * bool :=
        negb (is_panic o) && (if wf_wvalb v then obs_eqb o (Val v) else true))
   | CRaw accepted panicked =>
       (negb accepted && negb panicked, negb panicked)
+  | CSeq steps =>
+      (fix all (l : list case) : bool * bool :=
+         match l with
+         | [] => (true, true)
+         | s :: l' =>
+             let (m, o) := run_case s in
+             let (m', o') := all l' in
+             (m && m', o && o')
+         end) steps
   end.
